@@ -30,3 +30,60 @@ Print Assumptions C52_acceptor_sound.
 Theorem C52_acceptor_complete : forall cs tr s, steps cs init tr s -> accepts cs tr = true.
 Proof. exact accepts_complete. Qed.
 Print Assumptions C52_acceptor_complete.
+
+(* ---- second part: the verdict of a check, and the results recorded by a run of the pool ---- *)
+
+(* TestLauncher::execute, as modelled (every command is run, then every test, whatever failed before), records exactly
+   what the specification says: verdict, result of each command, result of each test, skipped steps *)
+Theorem C52_launcher_execute_meets_spec : forall d, launcher_execute d = check_result d.
+Proof. exact launcher_execute_is_spec. Qed.
+Print Assumptions C52_launcher_execute_meets_spec.
+
+(* --discard-commands-failure=false, requirements met: verdict = all commands succeed /\ all tests succeed; all are run *)
+Theorem C52_verdict_is_conjunction : forall d, req_ok d = true -> discard d = false ->
+  r_verdict (launcher_execute d) = all_true (cmd_ok d) && all_true (test_ok d) /\
+  r_cmds (launcher_execute d) = cmd_ok d /\ r_tests (launcher_execute d) = test_ok d.
+Proof. exact verdict_is_conjunction. Qed.
+Print Assumptions C52_verdict_is_conjunction.
+
+(* default options (discard_commands_failure = true): the failure of a command only counts when the check has no test *)
+Theorem C52_default_verdict : forall d, req_ok d = true -> discard d = true ->
+  r_verdict (launcher_execute d) = (if no_tests d then all_true (cmd_ok d) else all_true (test_ok d)) /\
+  r_cmds (launcher_execute d) = cmd_ok d /\ r_tests (launcher_execute d) = test_ok d.
+Proof. exact default_verdict. Qed.
+Print Assumptions C52_default_verdict.
+
+(* every schedule in which all checks returned: each check was started once, appended once, returned once, recorded once *)
+Theorem C52_exactly_once : forall cs ds tr s, rsteps cs ds rinit tr s -> length (finished (core s)) = length cs ->
+  started (core s) = length cs /\ Permutation (appended (core s)) (seq 0 (length cs)) /\
+  Permutation (finished (core s)) (seq 0 (length cs)) /\ Permutation (map fst (recorded s)) (seq 0 (length cs)).
+Proof. exact exactly_once. Qed.
+Print Assumptions C52_exactly_once.
+
+(* ... and the recorded (check, verdict, per-command results, per-test results) are, as a multiset, those of the
+   sequential run *)
+Theorem C52_results_schedule_independent : forall cs ds tr s, length cs = length ds ->
+  rsteps cs ds rinit tr s -> length (finished (core s)) = length cs ->
+  Permutation (recorded s) (sequential_results ds).
+Proof. exact results_schedule_independent. Qed.
+Print Assumptions C52_results_schedule_independent.
+
+(* ... and the exit status computed from what the tasks returned is "some check failed" *)
+Theorem C52_exit_status_from_results : forall cs ds tr s, length cs = length ds ->
+  rsteps cs ds rinit tr s -> length (finished (core s)) = length cs ->
+  exit_from_recorded (recorded s) = must_fail_defs ds.
+Proof. exact exit_schedule_independent. Qed.
+Print Assumptions C52_exit_status_from_results.
+
+(* the acceptor used on the real runs is the step function of this model *)
+Theorem C52_result_acceptor_is_the_model : forall cs ds tr, raccepts cs ds tr = true <-> exists s, rsteps cs ds rinit tr s.
+Proof. exact raccepts_iff. Qed.
+Print Assumptions C52_result_acceptor_is_the_model.
+
+(* the sequential run (start, append, return check 0, then check 1, ...) is a run of the model in which all checks returned,
+   and it records sequential_results: C52_results_schedule_independent compares every schedule with a real run *)
+Theorem C52_sequential_run_is_a_run : forall cs ds, length cs = length ds ->
+  exists s, rsteps cs ds rinit (sequential_trace ds) s /\ length (finished (core s)) = length cs /\
+            recorded s = sequential_results ds.
+Proof. exact sequential_run_is_a_run. Qed.
+Print Assumptions C52_sequential_run_is_a_run.
